@@ -1,14 +1,25 @@
 """C10 - escaping filters neutralise markup for every input and are invertible.
 
-corr  : Lean models (Filters/Model.lean) of xml_escape / markupsafe.escape / url_escape / html_entities_escape /
-        html_entities_unescape / XMLEntityEscaper.escape / trim / Decode / the htmlentityreplace handler vs the real
-        mako code in-process: every code point, every short string over the markup-significant tokens, random
-        mixed strings, the handler under ascii / latin-1 / cp1251 / shift_jis / utf-8.  The Spec-side decoders
+corr  : Lean models (Filters/Model.lean, Filters/Sites.lean) vs the real mako code in-process, through the per-area
+        driver `makodrv_filt`:
+        xml_escape / markupsafe.escape / url_escape / html_entities_escape / html_entities_unescape /
+        XMLEntityEscaper.escape / trim / UTF-8 encode on every code point, every short string over the
+        markup-significant tokens, reference-syntax strings, long dense strings (runs of 1..2000 markup characters) and
+        random mixed strings; the htmlentityreplace handler under ascii / latin-1 / cp1251 / shift_jis / utf-8;
+        `decode.<enc>` on single values and on HISTORIES of lookups and calls (closure-per-lookup model; the argument
+        also an object whose str() changes between calls); `filter=` on <%def> / nested <%def> / <%block> x buffered= x
+        cached= (first render + cache hit, buffer_filters [] and ['x']) against the site model.  The Spec-side decoders
         (unquote_plus, strict UTF-8, single character reference) are compared with CPython's.
-oracle: no Lean: markup scan of the outputs of `x`/`h`, html.unescape / urllib.parse.unquote_plus /
-        html_entities_unescape as inverses, `entity` against html.entities, `trim` against str.isspace, `decode`
-        on str/bytes/objects, per-character faithfulness of encode(..., 'htmlentityreplace') at byte level, and
-        the same through real templates (`${v | x}` ..., output_encoding + encoding_errors).
+oracle: no Lean, run in a forked child in parallel, every call into mako guarded (an escaping exception is a violation
+        `<site>-raises:<Class>`): markup scan of the outputs of `x`/`h`, html.unescape / urllib.parse.unquote_plus /
+        html_entities_unescape as inverses, `entity` against html.entities, `trim` against str.isspace; `decode` on
+        str/bytes/objects, on non-str/bytes values in a row (equal-but-differently-printing, unhashable, buffer types, a
+        mutable __str__) by call / `| decode.utf8` / `| n, decode.utf8` / default_filters, closures of different
+        charsets held at once (both orders, nested renders, two threads) against bytes.decode; per-character
+        faithfulness of encode(..., 'htmlentityreplace') at byte level; each filter's guarantee at every application
+        site (${e|n,f}, ${e|f}, default_filters, <%page expression_filter>, <%text filter>, filter= on <%def>, nested
+        <%def>, <%block>, <%call>, <%self:def>) x {plain, buffered, cached, cached+buffered} rendered twice with an
+        in-memory CacheImpl; and the filters / output_encoding + encoding_errors through real templates.
 """
 from __future__ import annotations
 
@@ -58,11 +69,16 @@ ASSUMPTIONS = [
     "markupsafe.escape is modelled from a probe of the running markupsafe (regen); its C speedups are compared on every code point, not verified",
     "html.entities of the running interpreter is the entity table (regenerated)",
     "decode.<enc> on invalid bytes / unknown encodings raises (UnicodeDecodeError/LookupError); the property is read as: whatever is returned is a str",
+    "decode.<enc> on an object that is neither str nor bytes is str(x) evaluated at the time of the call, on every call",
+    "application sites: the cache backend is an in-memory CacheImpl registered by the harness (get_or_create runs the creation "
+    "function once per key); buffer_filters is [] (or ['x'] in corr.sites); Beaker/dogpile back ends are not exercised here",
 ]
 TRUSTED_EXTRA = [
     "C10: tools/regen_filters.py (xml_escapes, regex classes, DEFAULT_ESCAPES, bindings from mako/filters.py by ast; "
     "html.entities, markupsafe probe, str.isspace, \\w, \\d from the interpreter)",
     "C10: urllib.parse.quote_plus, str.encode('utf8'), str.translate, re, the codecs: modelled and compared, not verified",
+    "C10: Filters/Sites.lean is a transcription of the decision logic of codegen.write_def_finish / write_cache_decorator, "
+    "tied to the rendered output by corr.sites (not to the generated source text)",
 ]
 REGEN = ["Filters"]
 
